@@ -196,7 +196,7 @@ class Gen:
                 body = self.ch(self.STR_BODIES)
                 prefix = self.ch(["", "", "", "", "r", "R", "u"])      # `U` is a known finding (kind)
             if self.infs:
-                if "\\" in body or "\n" in body or "#" in body:
+                if "\\" in body or "\n" in body or "#" in body or any(q in body for q in self.fsq):
                     continue
             raw = "r" in prefix.lower()
             if raw and body.endswith("\\"):
@@ -238,6 +238,8 @@ class Gen:
                                    "\\x41" if not raw else "\\", ":", "!", "\\N{BULLET}" if not raw else "N"])
                     if lit == "\\" and raw:
                         lit = "\\ "
+                    if self.infs > 1 and "\\" in lit:
+                        lit = "q"
                     parts.append(lit)
                 elif k < 0.45 and len(q) == 3 and self.infs == 1:
                     if self.nl == "\n" or self.crlf_in_fstring:
@@ -608,9 +610,10 @@ class Gen:
         if r < 0.65:
             return self.tprimary(d) + "." + self.name()
         if r < 0.8:
+            base = self.tprimary(d)
             with self.inbr():
-                return self.tprimary(d) + "[" + self.subscripts(d - 1) + "]"
-        if r < 0.85 and star_ok:
+                return base + "[" + self.subscripts(d - 1) + "]"
+        if r < 0.85 and star_ok and not getattr(self, "nostar", False):
             return "*" + self.O() + self.target(d - 1)
         if not paren_ok:
             return self.name()
@@ -624,8 +627,10 @@ class Gen:
                     if nstar > 1:
                         items[k] = it.lstrip("* ")
             s = (self.O() + "," + self.O()).join(items)
+            if n == 0:
+                return self.ch(["()", "[]"])
             if self.p(0.5):
-                if n == 1 and self.p(0.3):
+                if n == 1 and self.p(0.3) and not items[0].startswith("*"):
                     return "(" + s + ")"        # parenthesised single target
                 if n == 1 or self.p(0.2):
                     s += ","
@@ -707,7 +712,8 @@ class Gen:
         return self.ch(["None", "True", "False"])
 
     def dotted_value(self):
-        return ".".join([self.name()] + [self.name() for _ in range(self.ch([1, 1, 2]))])
+        # CPython: `_` cannot start a value pattern / class name (it is the wildcard)
+        return ".".join([self.ch([n for n in NAMES if n != "_"])] + [self.name() for _ in range(self.ch([1, 1, 2]))])
 
     def closed_pattern(self, d):
         r = self.r.random()
@@ -748,7 +754,7 @@ class Gen:
                     s += ","
                 return "{" + s + "}"
             if r < 0.9:
-                cls = self.ch([self.name(), self.dotted_value()])
+                cls = self.ch([self.ch([n for n in NAMES if n != "_"]), self.dotted_value()])
                 items = [self.as_pattern(d - 1) for _ in range(self.count(0, 3))]
                 kws = [x for x in dict.fromkeys(PLAIN)]
                 self.r.shuffle(kws)
@@ -775,7 +781,7 @@ class Gen:
                     was = self.layout
                     self.layout = False
                     with self.inbr():
-                        b = self.ch([self.expr(d, 1), "(" + self.exprlist(d) + ",)", self.name()])
+                        b = self.ch([self.expr(d, 1), "(" + self.expr(d, 1) + ", " + self.expr(d, 1) + ")", self.name()])
                     self.layout = was
                     items.append(nm + ": " + b)
                     pat.append(["TypeVar", nm, b])
@@ -810,6 +816,8 @@ class Gen:
             return t + self.O() + self.ch(AUGOPS) + self.O() + self.ch([self.exprlist(d), "yield " + self.expr(d, 1)])
         if r < 0.43:
             t = self.target(d, paren_ok=False)
+            if t.startswith("("):
+                t = self.name()     # CPython: "illegal target for annotation" (and `(x): T` is a known finding)
             s = t + self.O() + ":" + self.O() + self.expr(d, 1)
             if self.p(0.6):
                 s += " = " + self.ch([self.exprlist(d, star=True), "yield " + self.expr(d, 1)])
@@ -818,7 +826,9 @@ class Gen:
             return "return" + (S() + self.exprlist(d, star=True) if self.p(0.7) else "")
         if r < 0.53:
             n = self.ch([1, 1, 2, 3])
+            self.nostar = True
             items = [self.target(d, star_ok=False) for _ in range(n)]
+            self.nostar = False
             s = (self.O() + "," + self.O()).join(items)
             if self.p(0.15):
                 s += ","
@@ -1096,7 +1106,7 @@ class Gen:
         if k < 0.7:
             s = self.expr(self.depth, 1)
         else:
-            s = self.exprlist(self.depth, star=True)
+            s = self.exprlist(self.depth, star=False)
         if self.layout:
             s = s + self.ch(["", "", " ", "\n", "\n\n", "  # c", " \n"])
         return Program(s, s, [], "e")
@@ -1120,7 +1130,7 @@ def _is_empty_plain(lit):
     if "f" in lit[:k].lower():
         return False
     body = lit[k:]
-    return body in ("''", '""', "", '""""""')
+    return body in ("''", '""', "'" * 6, '"' * 6)
 
 
 def _tokens(line):
